@@ -392,6 +392,18 @@ def r6(ctx):
     ctx.sub(c08.r2)
 
 
+@rule("C09", "R7", "AGREE", "a round fits MRF k to cluster k's own statistics and relabels with the minimum-cost kernel")
+def r7(ctx):
+    """"each [round] fitting cluster statistics and MRFs to the current labels before relabelling ... the returned labelling is a
+    minimum-cost labelling for the returned model": the two mechanisms the loop delegates to."""
+    from . import c01, c14, c20
+    ctx.sub(c14.r2, only=("producer:", "consumer:"))     # result k of the optimiser updates cluster k (never completion order)
+    ctx.sub(c20.r2, only=("get:",))                       # ... and a failed or slow task is never replaced by the previous MRF
+    for r_ in (c01.r1, c01.r2, c01.r3, c01.r4, c01.r6, c01.r7):
+        ctx.sub(r_)                                       # the relabel kernel returns a minimum-cost sequence and its cost
+    ctx.sub(c01.r9, only=("handover:",))                  # ... for minus the log-likelihood of the model it was given
+
+
 # ---------------------------------------------------------------------------------------------------------------------------
 # Life-cycle obligations over the *cyclic* control-flow graph of the main loop.  C09.R2 states the order of the phases inside one
 # round (that is what C09 says); the properties that merely depend on the loop need less, and need it along every path - through
